@@ -114,7 +114,10 @@ GHOSTS['cache_read'] = z3.ArraySort(StrS, BoolS)    # files Cache.read_immutable
 GHOSTS['exec_n'] = IntS                             # number of _exec_simple_operation calls (recorded queries)
 GHOSTS['ne_wit'] = z3.ArraySort(StrS, StrS)       # a child seen by an rmdir that failed with ENOTEMPTY
 GHOSTS['obs_dir'] = z3.ArraySort(StrS, BoolS)      # paths for which os.path.isdir answered True
-SCRATCH_GHOSTS = ('xq_n', 'xq_val', 'xq_exc', 'mv_done', 'os_failed', 'obs_dir', 'ser', 'ne_wit', 'bd_resv', 'fence_n', 'cache_read', 'exec_n')
+GHOSTS['md_dir'] = StrS                             # argument of the last FileBuilder._make_dirs call that returned
+GHOSTS['md_res'] = LIST(STR).sort()                 # ... and the list it returned
+GHOSTS['replayed'] = z3.ArraySort(ObjS, BoolS)     # records visited by the replay functions of a cache look-up
+SCRATCH_GHOSTS = ('replayed', 'md_dir', 'md_res', 'xq_n', 'xq_val', 'xq_exc', 'mv_done', 'os_failed', 'obs_dir', 'ser', 'ne_wit', 'bd_resv', 'fence_n', 'cache_read', 'exec_n')
 
 
 def log_append(lg, e):
